@@ -121,6 +121,13 @@ CHECKS = {
          "unicode and nested JSON metadata at dataset/attribute/shard level are reopened and compared; copies/moves (nested, unicode, blank, cwd-relative) are opened, checked, iterated and written to.",
     note="pydantic-core's JSON text layer and semver's parser are externals (partial: exercised, not proved).",
     ref="DESIGN.md §5 C20"),
+ "C15": dict(
+    technique="Lean 4 proof (per-worker pipeline invariant of the channel-operation LTS M-PMAP in (round, slot) coordinates: output = input order, completeness at the end, one outstanding task per worker, deadlock freedom, drop lets workers exit) + output-level correspondence: cargo integration test of parallel_map and the rebuilt extension vs the Python reader",
+    text="C15_output_in_input_order, C15_only_items, C15_complete_at_end, C15_one_outstanding, C15_deadlock_free, C15_drop_lets_workers_exit for every worker count, input length and interleaving. "
+         "parallel_map is driven by a cargo test (item-dependent delays, stalling consumer, early drops with /proc/self/task thread counts); the extension rebuilt from /repo/rust is compared with "
+         "as_numpy_iterator for threads <,=,> #shards, all supported compressions, uneven shards, early close; the model's outputs under pseudo-random schedules are compared with both.",
+    note="PARTIAL: Rust thread interleavings cannot be controlled or observed step by step from the harness, so the tie between M-PMAP and the Rust code is at the level of outputs and thread counts only; std::sync::mpsc FIFO/disconnect semantics are a specified external.",
+    ref="DESIGN.md §5 C15, Appendix A.3"),
 }
 
 def main():
